@@ -22,7 +22,7 @@ N_RANDOM = {'quick': 1500, 'thorough': 400000}
 RULE = ('cases: (a) exhaustive: n in 1..N systems x priority pattern (distinct / ties / all equal) x completer position x completion '
         'timestep {0,1,3} (+ completion from outside between steps), each followed by a seeded tail of 5-30 requests from '
         '{execute(), execute(n), execute_systems(), execute_systems(True), add_system, remove_system, complete()}; (b) random: windows '
-        '(start/frequency) so that lower-ordered systems are due or not in the completing step; (d) long tails: 110-260 requests after completion incl. execute(n) with n up to 1000, on models whose systems are idle at that timestep or that have no systems; (c) batch drivers with completion '
+        '(start/frequency) so that lower-ordered systems are due or not in the completing step; (e) systems whose execute() raises (fault in an earlier step, in the completing step before the completer, or the completer raising right after complete()), the caller catching and going on; (d) long tails: 110-260 requests after completion incl. execute(n) with n up to 1000, on models whose systems are idle at that timestep or that have no systems; (c) batch drivers with completion '
         'below/at/above max_timesteps. Oracle: systems ordered before the completer ran in the completing step, those after did '
         'not; after completion no execution is ever logged, clocks and the full model state are identical before and after every '
         'advance request, execute_systems(True) raises ModelCompleteError, is_running() and bool(model) stay False. Non-trivial: '
@@ -305,8 +305,86 @@ def case_long_tail(ctx, case):
         ctx.sample({'kind': 'long tail', 'systems': style, 'completed_by': how, 'at': tc})
 
 
+def case_raising(ctx, case):
+    """Systems whose execute() raises (the caller catches and goes on): a fault in an earlier timestep, a fault in the completing timestep
+    before the completer's turn, or the completer itself raising right after complete() to unwind the caller.  Completion afterwards is
+    as final as ever: later requests change nothing and execute_systems(True) raises ModelCompleteError - nothing else."""
+    rng = ctx.rng('raising', case['i'])
+    core, collectors, Logger = fixtures()
+
+    class Boom(Exception):
+        pass
+
+    class Faulty(Logger):
+        raise_at = ()
+        raise_after_complete = False
+
+        def execute(self):
+            t = self.model.systems.timestep
+            super().execute()
+            if t in self.raise_at or (self.raise_after_complete and t == self.when):
+                raise Boom(self.id, t)
+
+    model = core.Model()
+    log = []
+    n = rng.randint(1, 5)
+    tc = rng.randint(0, 5)
+    style = rng.choice(['completer_raises', 'earlier_step', 'same_step_before', 'outside_after_fault', 'mixed'])
+    systems = [Faulty(f's{j}', model, log, priority=rng.randint(-2, 2)) for j in range(n)]
+    for s in systems:
+        model.systems.add_system(s)
+    order = sorted(range(n), key=lambda j: (-systems[j].priority, j))
+    cpos = rng.randrange(n)
+    completer = systems[order[cpos]]
+    if style != 'outside_after_fault':
+        completer.when = tc
+    if style in ('completer_raises', 'mixed'):
+        completer.raise_after_complete = True
+    if style in ('earlier_step', 'outside_after_fault', 'mixed') and tc > 0:
+        rng.choice(systems).raise_at = tuple(rng.sample(range(tc), rng.randint(1, min(2, tc))))
+    if style == 'same_step_before' and cpos > 0:
+        systems[order[rng.randrange(cpos)]].raise_at = (tc,)
+    faults = 0
+    guard = 0
+    while model.is_running() and guard < 40:
+        guard += 1
+        if style == 'outside_after_fault' and model.timestep >= tc and (faults or tc == 0 or guard > 12):
+            model.complete()
+            ctx.count('completions_outside')
+            break
+        try:
+            if rng.random() < 0.3:
+                model.execute(rng.randint(2, 4))
+            else:
+                model.execute()
+        except Boom as e:
+            faults += 1
+            ctx.count('system_faults_caught')
+            sid, t = e.args
+            if t in systems[int(sid[1:])].raise_at:
+                # the faulting step did not finish; make the fault one-off so that the run can go on
+                systems[int(sid[1:])].raise_at = tuple(x for x in systems[int(sid[1:])].raise_at if x != t)
+    if model.is_running():
+        model.complete()
+    if faults:
+        ctx.count('completions_after_system_fault')
+    if completer.raise_after_complete and not model.is_running():
+        ctx.count('completer_raised_after_complete')
+    check(model.is_running() is False and bool(model) is False, 'model still reports running after complete()')
+    n_log = len(log)
+    clock = (model.timestep, model.systems.timestep)
+    for s in systems:
+        s.raise_at, s.raise_after_complete = (), False
+    kinds = tail(ctx, rng, core, Logger, model, log)
+    check(len(log) == n_log and (model.timestep, model.systems.timestep) == clock, 'state moved after completion', clock_before=clock,
+          clock_after=(model.timestep, model.systems.timestep))
+    ctx.distinct(('raising', style, tc, cpos, faults, tuple(kinds)))
+    if case['i'] < 1:
+        ctx.sample({'kind': 'systems that raise', 'style': style, 'tc': tc, 'faults_caught': faults, 'tail': kinds})
+
+
 def run_case(ctx, case):
-    {'ex': case_ex, 'out': case_outside, 'rand': case_rand, 'batch': case_batch, 'longtail': case_long_tail}[case['kind']](ctx, case)
+    {'raising': case_raising, 'ex': case_ex, 'out': case_outside, 'rand': case_rand, 'batch': case_batch, 'longtail': case_long_tail}[case['kind']](ctx, case)
 
 
 def patterns(n):
@@ -339,6 +417,9 @@ def run(ctx):
     for i in range(N_LONGTAIL[ctx.tier]):
         if ctx.mine(i) and not ctx.full():
             ctx.run_case({'kind': 'longtail', 'i': i}, run_case)
+    for i in range(N_RANDOM[ctx.tier] // 5):
+        if ctx.mine(i) and not ctx.full():
+            ctx.run_case({'kind': 'raising', 'i': i}, run_case)
 
 
 def replay(ctx, case):
